@@ -353,8 +353,8 @@ def main():
     for umax in (255, 65535):
         obs.append(common.Ob(f"_log_counter: monotone, never beyond {umax}, stays at the ceiling (loop body, symbolic counter/num_reserved/base)", logh.ob_log_counter_lemma, (umax, 1, tmo), hard_s=tmo / 1000 * 10 + 120, bounds={"uint_maxval": umax}))
     for bits in (8, 16):
-        for grp in (4, 5):
-            obs.append(common.Ob(f"log{bits} merge (real-idealised): {'never below an input' if grp == 4 else 'decoded sum >= max_count => ceiling'}", realmode.ob_merge_ideal, (bits, tmo, grp), hard_s=tmo / 1000 * 3 + 120, bounds={"bits": bits}))
+        for grp in ("never below either input", "max_count => ceiling"):
+            obs.append(common.Ob(f"log{bits} merge (real-idealised): {grp}", realmode.ob_merge_ideal, (bits, tmo, grp), hard_s=tmo / 1000 * 3 + 120, bounds={"bits": bits}))
     obs.append(common.Ob("_func(b) = 0 <=> the ceiling decodes to max_count (real-idealised)", ob_func_char, (tmo,), hard_s=tmo / 1000 + 120, bounds={"uint_max": "1..65535 symbolic", "max_count": "< 2^63 symbolic"}))
     obs.append(common.Ob("_find_base: 200 Newton steps on exactly the given parameters; ValueError iff base < 1.000000001", ob_find_base_plumbing, (tmo,), hard_s=tmo / 1000 * 6 + 300, bounds={"max_count": "all uint64", "loop": "200 iterations unrolled"}))
     results = common.run_obligations(obs, progress=os.environ.get("VERIF_VERBOSE") == "1")
